@@ -33,21 +33,46 @@ type tspec struct {
 	crit bool
 	mode string
 	host string
+	// group: the role sits inside an aggregator role of that name (root -> group -> task role)
+	group string
+	// omitCrit: the role carries no `critical` key at all: the documented default (critical: true) applies
+	omitCrit bool
+	// trigger: for mode "hook": the moment the hook task is triggered at (it is deployed with the others and sits idle until then)
+	trigger string
 }
 
 type shape struct {
 	name  string
 	tasks []tspec
+	// calls: extra call roles of the workflow; failCalls: sim.Call tags that fail in every execution of the shape
+	calls     []string
+	failCalls []string
 }
 
 // Non-critical tasks live on hostB alone so that executor/agent loss with a
 // non-critical victim takes down non-critical tasks only.
 var shapes = []shape{
-	{"cn", []tspec{{true, "direct", "hostA"}, {false, "direct", "hostB"}}},
-	{"ccn", []tspec{{true, "fairmq", "hostA"}, {true, "direct", "hostA"}, {false, "fairmq", "hostB"}}},
-	{"cnn", []tspec{{true, "direct", "hostA"}, {false, "fairmq", "hostB"}, {false, "direct", "hostB"}}},
-	{"bn", []tspec{{true, "basic", "hostA"}, {false, "direct", "hostB"}}},
-	{"cc", []tspec{{true, "direct", "hostA"}, {true, "direct", "hostA"}}},
+	{name: "cn", tasks: []tspec{{crit: true, mode: "direct", host: "hostA"}, {crit: false, mode: "direct", host: "hostB"}}},
+	{name: "ccn", tasks: []tspec{{crit: true, mode: "fairmq", host: "hostA"}, {crit: true, mode: "direct", host: "hostA"}, {crit: false, mode: "fairmq", host: "hostB"}}},
+	{name: "cnn", tasks: []tspec{{crit: true, mode: "direct", host: "hostA"}, {crit: false, mode: "fairmq", host: "hostB"}, {crit: false, mode: "direct", host: "hostB"}}},
+	{name: "bn", tasks: []tspec{{crit: true, mode: "basic", host: "hostA"}, {crit: false, mode: "direct", host: "hostB"}}},
+	{name: "cc", tasks: []tspec{{crit: true, mode: "direct", host: "hostA"}, {crit: true, mode: "direct", host: "hostA"}}},
+	// nested tree: the critical task and a non-critical sibling share an aggregator, a second aggregator holds
+	// only a non-critical task (the failure has to travel task role -> aggregator -> root -> environment,
+	// and a non-critical ERROR must not leak into the aggregator's state)
+	{name: "gcn", tasks: []tspec{{crit: true, mode: "direct", host: "hostA", group: "g1"}, {crit: false, mode: "direct", host: "hostB", group: "g1"},
+		{crit: false, mode: "fairmq", host: "hostB", group: "g2"}}},
+	// the critical task does not say `critical` at all (handbook: the assumed default is critical: true)
+	{name: "dn", tasks: []tspec{{crit: true, mode: "direct", host: "hostA", omitCrit: true}, {crit: false, mode: "direct", host: "hostB"}}},
+	// the workflow has a critical call at before_GO_ERROR that always fails: the gentle GO_ERROR of the error
+	// watcher (and of the API) is refused and the state has to be forced
+	{name: "cnk", tasks: []tspec{{crit: true, mode: "direct", host: "hostA"}, {crit: false, mode: "direct", host: "hostB"}},
+		calls:     []string{"  - name: \"goerr-hook\"\n    call:\n      func: sim.Call(\"c03-goerr-hook\")\n      trigger: before_GO_ERROR\n      timeout: 5s\n      critical: true\n"},
+		failCalls: []string{"c03-goerr-hook"}},
+	// hook tasks: a critical and a non-critical cleanup hook (trigger DESTROY: deployed with the environment, idle until the teardown)
+	// next to a critical controllable task; a hook task is a task of the environment like any other
+	{name: "chh", tasks: []tspec{{crit: true, mode: "direct", host: "hostA"}, {crit: true, mode: "hook", host: "hostA", trigger: "DESTROY"},
+		{crit: false, mode: "hook", host: "hostB", trigger: "DESTROY"}}},
 }
 
 // failure kinds (statement: process dies / Mesos reports failed, lost, killed /
@@ -62,10 +87,13 @@ const (
 	kAgentLost        // agent lost as Mesos reports it: TASK_LOST per task, then FAILURE(agent)
 	kInternal         // device announces TASK_INTERNAL_ERROR (controllable tasks)
 	kReconLost        // lost with its agent while the core was disconnected: TASK_LOST learnt from the reconciliation after the resubscription
+	kFinished         // process of a controllable task ends with exit status 0: the executor reports TASK_FINISHED (executor/executable/controllabletask.go)
+	kBasicExit        // process of a basic task ends with exit status 1 while the activity runs: the executor reports BASIC_TASK_TERMINATED only (basictaskcommon.go), the Mesos task stays RUNNING
 	nKinds
 )
 
-var kindName = [...]string{"none", "TASK_FAILED", "TASK_LOST", "TASK_KILLED", "executor-lost", "agent-lost", "agent-lost+TASK_LOST", "TASK_INTERNAL_ERROR", "TASK_LOST-by-reconciliation"}
+var kindName = [...]string{"none", "TASK_FAILED", "TASK_LOST", "TASK_KILLED", "executor-lost", "agent-lost", "agent-lost+TASK_LOST", "TASK_INTERNAL_ERROR", "TASK_LOST-by-reconciliation",
+	"TASK_FINISHED", "basic-process-exit-1"}
 
 type phase struct {
 	name  string
@@ -74,6 +102,12 @@ type phase struct {
 	src   string
 	dst   string
 	event string // task-level event name of the racing request
+	// pre: requests made (and answered successfully) on the default schedule before the injection, instead of
+	// `start`: the history behind the live state (a second run, CONFIGURED after a run, CONFIGURED after RESET+CONFIGURE)
+	pre []string
+	// prefault: before the injection the last non-critical task of the shape dies (TASK_FAILED) and a virtual
+	// second passes: the injected failure is the second of a fault sequence
+	prefault bool
 }
 
 var phases = []phase{
@@ -84,16 +118,28 @@ var phases = []phase{
 	{name: "race-RESET", op: "RESET", src: "CONFIGURED", dst: "DEPLOYED", event: "RESET"},
 }
 
+// history phases: the same live states reached by a longer history, and as the second fault of a sequence
+var historyPhases = []phase{
+	{name: "idle-CONFIGURED-after-run", src: "CONFIGURED", dst: "CONFIGURED", pre: []string{"START_ACTIVITY", "STOP_ACTIVITY"}},
+	{name: "idle-RUNNING-second-run", start: true, src: "RUNNING", dst: "RUNNING", pre: []string{"START_ACTIVITY", "STOP_ACTIVITY", "START_ACTIVITY"}},
+	{name: "idle-CONFIGURED-reconfigured", src: "CONFIGURED", dst: "CONFIGURED", pre: []string{"RESET", "CONFIGURE"}},
+	{name: "idle-RUNNING-after-noncritical-failure", start: true, src: "RUNNING", dst: "RUNNING", pre: []string{"START_ACTIVITY"}, prefault: true},
+	{name: "idle-CONFIGURED-after-noncritical-failure", src: "CONFIGURED", dst: "CONFIGURED", pre: []string{}, prefault: true},
+}
+
 var opOf = map[string]pb.ControlEnvironmentRequest_Optype{"START_ACTIVITY": pb.ControlEnvironmentRequest_START_ACTIVITY,
-	"STOP_ACTIVITY": pb.ControlEnvironmentRequest_STOP_ACTIVITY, "RESET": pb.ControlEnvironmentRequest_RESET}
+	"STOP_ACTIVITY": pb.ControlEnvironmentRequest_STOP_ACTIVITY, "RESET": pb.ControlEnvironmentRequest_RESET, "CONFIGURE": pb.ControlEnvironmentRequest_CONFIGURE}
+
+var opDst = map[string]string{"START_ACTIVITY": "RUNNING", "STOP_ACTIVITY": "CONFIGURED", "RESET": "DEPLOYED", "CONFIGURE": "CONFIGURED"}
 
 func wfName(s shape) string         { return "c03-" + s.name }
 func className(s shape, i int) string { return fmt.Sprintf("c03%s%d", s.name, i) }
 
 func specOf(s shape) coresim.WorkflowSpec {
-	wf := coresim.WorkflowSpec{Name: wfName(s), Hosts: []string{"hostA"}}
+	wf := coresim.WorkflowSpec{Name: wfName(s), Hosts: []string{"hostA"}, Calls: s.calls}
 	for i, t := range s.tasks {
-		wf.Tasks = append(wf.Tasks, coresim.TaskSpec{Name: fmt.Sprintf("t%d", i), Class: className(s, i), Mode: t.mode, Critical: t.crit, Host: t.host})
+		wf.Tasks = append(wf.Tasks, coresim.TaskSpec{Name: fmt.Sprintf("t%d", i), Class: className(s, i), Mode: t.mode, Critical: t.crit, Host: t.host,
+			Group: t.group, OmitCritical: t.omitCrit, Trigger: t.trigger})
 	}
 	return wf
 }
@@ -153,6 +199,7 @@ type result struct {
 	after                 []obs // observations at quiescence, +1 s, +5 s (virtual)
 	evFrom, runEvFrom     int
 	runStarted            bool   // a run was active when the failure hit, or became active afterwards
+	runEndAtInject        string // run_end_time_ms as reported right before the injection (a stamp of an earlier run must not count for this one)
 	runNumber             uint32 // number of that run
 	kills                 int
 	stops                 int
@@ -166,6 +213,9 @@ var groups = map[string][]int{
 	"failed": {kFailed},
 	// one representative per handling path (status update / executor FAILURE / agent FAILURE preceded by status updates)
 	"mesos-core": {kFailed, kExec, kAgentLost, kReconLost},
+	// the process ends on its own without Mesos or the executor calling it a failure: exit status 0 of a
+	// controllable task (TASK_FINISHED), exit status 1 of a basic task's process (device event only)
+	"exit": {kNone, kFinished, kBasicExit},
 }
 
 func scenario(s shape, ph phase, group string, q, t vrt.Bounds) *vrt.Scenario {
@@ -189,7 +239,13 @@ func scenario(s shape, ph phase, group string, q, t vrt.Bounds) *vrt.Scenario {
 	n := len(s.tasks)
 	nInst := 1
 	if ph.op != "" {
-		nInst = 1 + 2*n // 0: concurrent with the request; 2k-1/2k: before/after the reply to the k-th task command
+		nCmd := 0 // hook tasks are not commanded by the environment's transitions
+		for _, t := range s.tasks {
+			if t.mode != "hook" {
+				nCmd++
+			}
+		}
+		nInst = 1 + 2*nCmd // 0: concurrent with the request; 2k-1/2k: before/after the reply to the k-th task command
 	}
 	body := func() {
 		armed = false
@@ -197,8 +253,17 @@ func scenario(s shape, ph phase, group string, q, t vrt.Bounds) *vrt.Scenario {
 		r.victim = vrt.ChooseFree(n, "victim")
 		r.kind = kinds[vrt.ChooseFree(len(kinds), "kind")]
 		r.instant = vrt.ChooseFree(nInst, "instant")
-		if r.kind == kInternal && s.tasks[r.victim].mode == "basic" {
+		if r.kind == kInternal && (s.tasks[r.victim].mode == "basic" || s.tasks[r.victim].mode == "hook") {
 			r.kind = kNone // a basic task has no device that could announce anything
+		}
+		if r.kind == kFinished && (s.tasks[r.victim].mode == "basic" || s.tasks[r.victim].mode == "hook") {
+			r.kind = kNone // TASK_FINISHED of a basic task is what its executor sends when the task is killed on request
+		}
+		if r.kind == kBasicExit && (s.tasks[r.victim].mode != "basic" || ph.src != "RUNNING") {
+			r.kind = kNone // the process of a basic task exists only while the activity runs
+		}
+		for _, tag := range s.failCalls {
+			coresim.CallFail[tag] = true
 		}
 		m := coresim.NewMaster(agents()...)
 		m.LostIsSilent = true
@@ -208,14 +273,39 @@ func scenario(s shape, ph phase, group string, q, t vrt.Bounds) *vrt.Scenario {
 			r.setupErr = fmt.Sprintf("create: state=%s err=%v", st, err)
 			return
 		}
-		if ph.start {
-			st, err = w.Control(id, pb.ControlEnvironmentRequest_START_ACTIVITY)
-			if err != nil || st != "RUNNING" {
-				r.setupErr = fmt.Sprintf("start: state=%s err=%v", st, err)
+		pre := ph.pre
+		if pre == nil && ph.start {
+			pre = []string{"START_ACTIVITY"}
+		}
+		for _, op := range pre {
+			st, err = w.Control(id, opOf[op])
+			if err != nil || st != opDst[op] {
+				r.setupErr = fmt.Sprintf("%s: state=%s err=%v", op, st, err)
 				return
 			}
 		}
 		vrt.Quiesce("settled")
+		if ph.prefault {
+			// first fault of the sequence: the last non-critical task dies; nothing may come of it
+			var first *coresim.SimTask
+			for i := range s.tasks {
+				if !s.tasks[i].crit {
+					for _, tid := range m.TaskOrder {
+						if m.Tasks[tid].Class == className(s, i) {
+							first = m.Tasks[tid]
+						}
+					}
+				}
+			}
+			if first == nil || !first.Alive {
+				r.setupErr = "no non-critical task for the first fault"
+				return
+			}
+			m.FailTask(first, mesos.TASK_FAILED)
+			vrt.Quiesce("first-fault")
+			vrt.Sleep(1 * time.Second)
+			vrt.Quiesce("first-fault+1s")
+		}
 		o0 := observe(w, id)
 		r.envAtInject = o0.state
 		if o0.state != ph.src {
@@ -224,15 +314,19 @@ func scenario(s shape, ph phase, group string, q, t vrt.Bounds) *vrt.Scenario {
 		}
 		r.runNumber = o0.rn
 		r.runStarted = ph.start
+		r.runEndAtInject = o0.runEnd
 		var victim *coresim.SimTask
 		for _, tid := range m.TaskOrder {
 			if m.Tasks[tid].Class == className(s, r.victim) {
 				victim = m.Tasks[tid]
 			}
 		}
-		if victim == nil || !victim.Alive {
+		if victim == nil || (!victim.Alive && !ph.prefault) {
 			r.setupErr = "victim task not launched"
 			return
+		}
+		if !victim.Alive {
+			r.kind = kNone // the victim is the task that died as the first fault: fault-free continuation
 		}
 		r.evFrom, r.runEvFrom = len(w.EnvEvents), len(w.RunEvents)
 		kills0 := len(m.CallsOf("KILL"))
@@ -251,6 +345,15 @@ func scenario(s shape, ph phase, group string, q, t vrt.Bounds) *vrt.Scenario {
 			case kReconLost:
 				dead = []*coresim.SimTask{victim}
 				m.LoseWhileDisconnected(victim)
+			case kFinished:
+				dead = []*coresim.SimTask{victim}
+				m.FailTask(victim, mesos.TASK_FINISHED)
+			case kBasicExit:
+				dead = []*coresim.SimTask{victim}
+				// the Mesos task (the executor's wrapper) stays RUNNING; what the executor sends is the device event only
+				m.DeviceEvent(victim, map[string]any{"type": int(occpb.DeviceEventType_BASIC_TASK_TERMINATED), "origin": map[string]any{
+					"agentId": map[string]string{"value": victim.AgentID}, "executorId": map[string]string{"value": victim.ExecutorID}, "taskId": map[string]string{"value": victim.ID}},
+					"labels": map[string]string{"environmentId": id}, "exitCode": 1, "voluntaryTermination": true, "finalMesosState": int(mesos.TASK_FAILED)})
 			case kExec, kAgent, kAgentLost:
 				for _, tid := range m.TaskOrder {
 					if t := m.Tasks[tid]; t.Alive && t.AgentID == victim.AgentID && (r.kind != kExec || t.ExecutorID == victim.ExecutorID) {
@@ -336,7 +439,7 @@ func scenario(s shape, ph phase, group string, q, t vrt.Bounds) *vrt.Scenario {
 		vrt.Sleep(4 * time.Second)
 		vrt.Quiesce("after-fault+5s")
 		r.after = append(r.after, observe(w, id))
-		for _, e := range w.RunEvents {
+		for _, e := range w.RunEvents[r.runEvFrom:] { // a run of the history that ended before the injection is not this failure's business
 			if e.Transition == "START_ACTIVITY" && e.TransitionStatus == evpb.OpStatus_DONE_OK && e.Error == "" {
 				r.runStarted = true
 				r.runNumber = e.RunNumber
@@ -376,7 +479,7 @@ func scenario(s shape, ph phase, group string, q, t vrt.Bounds) *vrt.Scenario {
 				out = append(out, vrt.Violation{Clause: "not-in-ERROR-after-critical-failure:" + kn + ":" + ph.name + ":" + final.state, Detail: ctx})
 			}
 			if r.runStarted && final.state != "RUNNING" {
-				ended := final.runEnd != ""
+				ended := final.runEnd != "" && final.runEnd != r.runEndAtInject
 				for _, e := range w.RunEvents[r.runEvFrom:] {
 					if e.RunNumber == r.runNumber && (e.Transition == "STOP_ACTIVITY" || e.Transition == "GO_ERROR") {
 						ended = true
@@ -412,10 +515,21 @@ func scenario(s shape, ph phase, group string, q, t vrt.Bounds) *vrt.Scenario {
 		if len(diffs) > 0 {
 			out = append(out, vrt.Violation{Clause: cl, Detail: strings.Join(diffs, "; ") + "\n" + ctx})
 		}
+		// a clause of its own for the gravest way of changing the state (the recorded TASK_INTERNAL_ERROR defect *stops the run* of a
+		// healthy environment; an environment driven to ERROR by a non-critical task is another defect and must not hide behind it)
+		if r.kind != kNone && final.state == "ERROR" {
+			out = append(out, vrt.Violation{Clause: "non-critical-failure-drove-the-environment-to-ERROR:" + kn + ":" + ph.name, Detail: strings.Join(diffs, "; ") + "\n" + ctx})
+		}
 		return
 	}
 	return &vrt.Scenario{Name: s.name + "-" + ph.name + "-" + group, Prop: "C03", Body: body, Check: check, Quick: q, Thorough: t,
-		Setup:          func() { armed = false; coresim.ResetStore() },
+		Setup: func() {
+			armed = false
+			coresim.ResetStore()
+			for tag := range coresim.CallFail {
+				delete(coresim.CallFail, tag)
+			}
+		},
 		Cfg:            vrt.Config{Preempt: preempt, FreeSwitchCost: true, Horizon: 30 * time.Minute, Frozen: func() bool { return !armed }},
 		DeadlockClause: "hangs-after-task-failure:" + ph.name, PanicClause: "panic",
 		NonTrivial: func(x *vrt.Exec) bool { return r.injected && r.kind != kNone },
@@ -490,6 +604,7 @@ func main() {
 	coresim.GlobalSetup(specs...)
 	b := func(dev, sec int) vrt.Bounds { return vrt.Bounds{Dev: dev, Seconds: sec} }
 	var scs []*vrt.Scenario
+	newShape := map[string]bool{"gcn": true, "dn": true, "cnk": true, "chh": true}
 	for _, s := range shapes {
 		for _, ph := range phases {
 			switch {
@@ -502,6 +617,15 @@ func main() {
 					}
 					scs = append(scs, scenario(s, ph, "failed", b(1, 100), b(deep, 900)))
 				}
+			case newShape[s.name]:
+				// nested tree / default critical trait / refused GO_ERROR: Mesos-level kinds only (the recorded
+				// device-level defect does not depend on the shape); the whole grid on the default schedule, one
+				// kind per handling path with deviations where the order of role updates and watcher can matter
+				// (the quick tier leaves out the combinations that add nothing on the default schedule: registry quick_scenarios)
+				scs = append(scs, scenario(s, ph, "mesos", b(0, 100), b(1, 600)))
+				if ph.op == "" && s.name != "dn" {
+					scs = append(scs, scenario(s, ph, "mesos-core", b(1, 100), b(2, 600)))
+				}
 			case ph.op == "":
 				scs = append(scs, scenario(s, ph, "mesos", b(1, 100), b(2, 600)))
 				scs = append(scs, scenario(s, ph, "device", b(1, 100), b(2, 600)))
@@ -513,6 +637,21 @@ func main() {
 				scs = append(scs, scenario(s, ph, "mesos", b(0, 100), b(0, 100)))
 				scs = append(scs, scenario(s, ph, "mesos-core", b(0, 100), b(1, 900)))
 				scs = append(scs, scenario(s, ph, "device", b(0, 100), b(1, 600)))
+			}
+			// the process ends on its own without anybody calling it a failure: controllable tasks (cn), a basic task (bn;
+			// its process exists only while the activity runs)
+			if s.name == "cn" || (s.name == "bn" && ph.src == "RUNNING") {
+				if ph.op == "" {
+					scs = append(scs, scenario(s, ph, "exit", b(1, 100), b(2, 600)))
+				} else {
+					scs = append(scs, scenario(s, ph, "exit", b(0, 100), b(1, 600)))
+				}
+			}
+		}
+		// the same live states behind a longer history / as the second fault of a sequence (Mesos-level kinds, one per handling path)
+		for _, ph := range historyPhases {
+			if (!ph.prefault && s.name == "cn") || (ph.prefault && s.name == "cnn") {
+				scs = append(scs, scenario(s, ph, "mesos-core", b(1, 100), b(2, 600)))
 			}
 		}
 	}
